@@ -301,7 +301,53 @@ func c03Run(c *engine.Ctx) {
 			c.DistinctN(int64(len(ops)))
 		}
 	}
-	c.Sample(map[string]any{"operator": "*", "a": `{"a":{"b":1}}`, "b": `{"a":{"c":2}}`})
+	// objects with common keys in every size relation: every ordered pair of the 27 + 9 objects over keys a, b, c with
+	// values absent, 1, 2 (and nested {a: ...} of the first nine), for + and * (merge and recursive merge)
+	{
+		var objs []any
+		for a := 0; a < 3; a++ {
+			for b := 0; b < 3; b++ {
+				for d := 0; d < 3; d++ {
+					m := map[string]any{}
+					for k, v := range map[string]int{"a": a, "b": b, "c": d} {
+						if v > 0 {
+							m[k] = v
+						}
+					}
+					objs = append(objs, m)
+				}
+			}
+		}
+		for _, o := range objs[:9] {
+			objs = append(objs, map[string]any{"a": o, "b": 1})
+		}
+		oi := 0
+		for _, a := range objs {
+			for _, b := range objs {
+				oi++
+				if !c.MineIdx(oi) {
+					continue
+				}
+				for _, op := range []string{"+", "*"} {
+					key := fmt.Sprintf("%s %s %s", univ.Repr(a), op, univ.Repr(b))
+					c.Eval()
+					o := opCodes[op].run(nil, []any{univ.Copy(a), univ.Copy(b)})
+					if o.bad != "" {
+						c.Violation(key, "totality", map[string]any{"name": op, "arity": -2, "input": nil, "args": univ.ToTagged([]any{a, b}), "why": o.bad})
+						continue
+					}
+					if want, isErr, defined := refBinop(op, a, b); defined {
+						c.Count("reference_evaluations", 1)
+						if msg := c03Against(o, want, isErr, op); msg != "" {
+							c.Violation(key, "wrong-value", map[string]any{"name": op, "arity": -2, "input": nil, "args": univ.ToTagged([]any{a, b}), "why": msg})
+						}
+					}
+				}
+				c.DistinctN(2)
+			}
+		}
+	}
+	c.Sample(map[string]any{"operator": "*", "a": `{"a":{"b":1}}`, "b": `{"a":{"c":2}}`, "object_pairs": "every ordered pair of 36 objects over keys a, b, c for + and *"})
 
 	// math pass-through
 	c.Sub("math")
